@@ -174,6 +174,38 @@ def v3000_manylines_sessions(rng, tier):
     return ss
 
 
+def version_word_sessions(rng, tier, fmt):
+    """the word that says which table follows (last word of the fourth line), and the file name the file API insists on"""
+    ss = []
+    words = {"V3000": ["V3000", "V3000  ", "v3000", "V3000x", "V30000", "3000", "", "V2000 V3000"],
+             "V2000": ["V2000", "V2000 ", "v2000", "V2000.", "2000", "V3000 V2000", "999V2000"]}[fmt]
+    for i, w in enumerate(words):
+        M = textgen.abstract_molecule(rng, 4, pool=["C", "N", "O"], coords=["0", "1.5"])
+        for a in M["atoms"]:
+            if a["rad"] not in (0, 2):
+                a["rad"] = 2
+        if fmt == "V2000" and not textgen.fits_v2000(M):
+            continue
+        lines, _ = (textgen.render_v3000 if fmt == "V3000" else textgen.render_v2000)(M, rng)
+        l4 = lines[3].rstrip()
+        lines[3] = l4[:len(l4) - 5] + w
+        S = Session(f"version-{fmt}-{i}")
+        S.read(lines, fmt, "C07" if fmt == "V3000" else "C08", floats=textgen.floats_of(M))
+        ss.append(S)
+    for i, sfx in enumerate([".mol", ".sdf", ".MOL", ".mol2", ""]):
+        M = textgen.abstract_molecule(rng, 4, pool=["C", "N", "O"], coords=["0", "1.5"])
+        for a in M["atoms"]:
+            if a["rad"] not in (0, 2):
+                a["rad"] = 2
+        if fmt == "V2000" and not textgen.fits_v2000(M):
+            continue
+        lines, _ = (textgen.render_v3000 if fmt == "V3000" else textgen.render_v2000)(M, rng)
+        S = Session(f"suffix-{fmt}-{i}")
+        S.read(lines, fmt, "C07" if fmt == "V3000" else "C08", mol=textgen.mol_event(M), floats=textgen.floats_of(M), via_file=True, suffix=sfx)
+        ss.append(S)
+    return ss
+
+
 def permuted(M, perm):
     n = len(M["atoms"])
     atoms = [None] * n
@@ -208,6 +240,7 @@ def c07(out, tier, rng):
     ss += v3000_hub_sessions(rng, tier)
     ss += v3000_samepath_sessions(rng, tier)
     ss += v3000_manylines_sessions(rng, tier)
+    ss += version_word_sessions(rng, tier, "V3000")
     ss += corpus_text_sessions("C07", tier, rng, 120 if tier == "quick" else 400)
     for s in ss:
         out.count(("c07", json.dumps(s.ev[0].get("lines", []))[:2000]), nontrivial=True)
@@ -302,6 +335,7 @@ def c08(out, tier, rng):
     ss = spec_text_sessions(items, "C08", rng, 700 if tier == "quick" else None)
     ss += v2000_sessions(rng, tier, 200 if tier == "quick" else 3000)
     ss += corpus_v2000_sessions(rng)
+    ss += version_word_sessions(rng, tier, "V2000")
     for s in ss:
         out.count(("c08", json.dumps(s.ev[0].get("lines", []))[:2000]), nontrivial=True)
     validate_sessions(out, ss, "C08:", rl=0)
